@@ -193,6 +193,29 @@ func lawWorker(w *vf.Worker) {
 		}
 	}
 
+	// ---- no internal error: whatever an absent value inside a collection literal becomes, evaluating,
+	// printing, dumping or emitting the collection must not abort with an "internal coding error" or panic
+	for _, prog := range []string{
+		`end{print [1, @nosuch, 3]}`, `end{x = [1, @nosuch, 3]; print x}`, `end{@x = [@nosuch]; dump}`, `end{dump [1, @nosuch]}`,
+		`end{x = [1, @nosuch, 3]; print length(x)}`, `end{emit1 {"a": [1, @nosuch]}}`, `end{@v = {"a": [@nosuch, 2]}; emit @v}`,
+		`end{print {"a": @nosuch, "b": 2}}`, `end{print [[@nosuch]]}`, `end{x = [1, @nosuch]; for (e in x) {print "e", e}}`,
+		`$y = [$a, $nosuch]`, `$y = {"k": [$nosuch]}`, `end{x = [1, 2]; x[2] = @nosuch; print x}`, `end{print append([1], @nosuch)}`,
+	} {
+		if !mine("no internal error: " + prog) {
+			continue
+		}
+		for _, fmtFlag := range []string{"--ojson", "--ojsonl", "--odkvp"} {
+			r := run([]string{fmtFlag, "put", prog}, one)
+			w.Nontrivial(1)
+			w.Count("law:no-internal-error-cases", 1)
+			if r.Panic != "" || strings.Contains(r.Stderr+r.Err, "internal coding error") {
+				w.Violation("law[internal-error;absent-in-collection-literal]:"+fmtFlag+":"+prog,
+					fmt.Sprintf("`mlr %s put '%s'` aborts with an internal error (exit %d): %s", fmtFlag, prog, r.Exit, trunc(strings.TrimSpace(r.Panic+r.Stderr+r.Err), 200)),
+					map[string]any{"command": "mlr " + fmtFlag + " put '" + prog + "'", "stdin": one})
+			}
+		}
+	}
+
 	// ---- documented errors
 	type bad struct{ name, prog, why string }
 	bads := []bad{
